@@ -494,6 +494,7 @@ func main() {
 		{"drpcmetadata/serialize.go", "varintSize"}, {"drpcmetadata/serialize.go", "encodedStringSize"},
 		{"drpcmetadata/serialize.go", "appendEntry"}, {"drpcmetadata/serialize.go", "readEntry"}, {"drpcmetadata/serialize.go", "readKeyValue"},
 		{"drpcmetadata/metadata.go", "Encode"}, {"drpcmetadata/metadata.go", "Decode"},
+		{"drpcmetadata/metadata.go", "AddPairs"}, {"drpcmetadata/metadata.go", "Add"}, {"drpcmetadata/metadata.go", "Get"},
 		{"drpchttp/context.go", "buildContext"}, {"drpchttp/context.go", "unhex"}, {"drpchttp/context.go", "unescape"},
 		{"drpchttp/handler.go", "getCode"}, {"drpchttp/handler.go", "wrapper.ServeHTTP"},
 		{"drpchttp/encoding.go", "grpcRead"}, {"drpchttp/encoding.go", "twirpRead"}, {"drpchttp/encoding.go", "readExactly"},
